@@ -31,13 +31,12 @@ impl Axecutor {
     fn instr_cmovae_r16_rm16(&mut self, i: Instruction) -> Result<(), AxError> {
         debug_assert_eq!(i.code(), Cmovae_r16_rm16);
 
-        if self.state.rflags & FLAG_CF == 0 {
-            calculate_r_rm![u16; self; i; |_, s| {
-                s
-            }; (set: FLAGS_UNAFFECTED; clear: 0)]
-        } else {
-            Ok(())
-        }
+        // The source is always read (it can fault) and the destination always written
+        // (a 32-bit destination is zero-extended even if the condition is false)
+        let condition = self.state.rflags & FLAG_CF == 0;
+        calculate_r_rm![u16; self; i; |d, s| {
+            if condition { s } else { d }
+        }; (set: FLAGS_UNAFFECTED; clear: 0)]
     }
 
     /// CMOVAE r32, r/m32
@@ -46,13 +45,12 @@ impl Axecutor {
     fn instr_cmovae_r32_rm32(&mut self, i: Instruction) -> Result<(), AxError> {
         debug_assert_eq!(i.code(), Cmovae_r32_rm32);
 
-        if self.state.rflags & FLAG_CF == 0 {
-            calculate_r_rm![u32; self; i; |_, s| {
-                s
-            }; (set: FLAGS_UNAFFECTED; clear: 0)]
-        } else {
-            Ok(())
-        }
+        // The source is always read (it can fault) and the destination always written
+        // (a 32-bit destination is zero-extended even if the condition is false)
+        let condition = self.state.rflags & FLAG_CF == 0;
+        calculate_r_rm![u32; self; i; |d, s| {
+            if condition { s } else { d }
+        }; (set: FLAGS_UNAFFECTED; clear: 0)]
     }
 
     /// CMOVAE r64, r/m64
@@ -61,13 +59,12 @@ impl Axecutor {
     fn instr_cmovae_r64_rm64(&mut self, i: Instruction) -> Result<(), AxError> {
         debug_assert_eq!(i.code(), Cmovae_r64_rm64);
 
-        if self.state.rflags & FLAG_CF == 0 {
-            calculate_r_rm![u64; self; i; |_, s| {
-                s
-            }; (set: FLAGS_UNAFFECTED; clear: 0)]
-        } else {
-            Ok(())
-        }
+        // The source is always read (it can fault) and the destination always written
+        // (a 32-bit destination is zero-extended even if the condition is false)
+        let condition = self.state.rflags & FLAG_CF == 0;
+        calculate_r_rm![u64; self; i; |d, s| {
+            if condition { s } else { d }
+        }; (set: FLAGS_UNAFFECTED; clear: 0)]
     }
 }
 
